@@ -16,6 +16,8 @@ import (
 
 func init() {
 	register(&Property{ID: "C08", Run: runC08, Mutants: []Mutant{
+		{Name: "slice-expression colon loop bounded by the wrong array", File: "internal/parser/parser.go", Old: "for p.tok == token.COLON && ncolons < len(colons) {", New: "for p.tok == token.COLON && ncolons < len(index) {", Expect: "fixed-array-bound :: internal/parser.parser.parseIndexOrSlice"},
+		{Name: "array elements resolved through the indirect resolver", File: "internal/types/typexpr.go", Old: "\t\t\ttyp.len = check.arrayLength(e.Len)\n\t\t\ttyp.elem = check.typ(e.Elt)", New: "\t\t\ttyp.len = check.arrayLength(e.Len)\n\t\t\ttyp.elem = check.indirectType(e.Elt)", Expect: "value-cycle-detection :: typInternal: array element type"},
 		{Name: "format.File panics again on unknown language", File: "internal/format/format.go", Old: "\tdefault:\n\t\treturn nil, false, fmt.Errorf(", New: "\tdefault:\n\t\tpanic(\"unreachable\")\n\t\treturn nil, false, fmt.Errorf(", Expect: "dispatch-totality"},
 		{Name: "parser entry loses its recover", File: "internal/parser/interface.go", Old: "if e := recover(); e != nil {\n\t\t\t// resume same panic if it's not a bailout\n\t\t\tif _, ok := e.(bailout); !ok {\n\t\t\t\tpanic(e)\n\t\t\t}\n\t\t}\n\n\t\t// set result values\n\t\tif f == nil {", New: "if e := error(nil); e != nil {\n\t\t\t// resume same panic if it's not a bailout\n\t\t\tpanic(e)\n\t\t}\n\n\t\t// set result values\n\t\tif f == nil {", Expect: "recover-boundary"},
 		{Name: "loader exits the process on an unclassifiable file", File: "internal/loader/loader.go", Old: "\t\t\terr = fmt.Errorf(\"%s: unknown source type\", filename)", New: "\t\t\tfmt.Println(filename, \"unknown source type\")\n\t\t\tos.Exit(1)", Expect: "no-process-exit"},
@@ -68,8 +70,10 @@ func runC08(c *Ctx) {
 		"(1) dispatch totality: a switch whose tag is the result of a function that returns only named constants covers every constant that function can return unless its default arm does not panic; " +
 		"(2) no call path from an entry point reaches os.Exit / log.Fatal / logger.Fatal; (3) every parsing entry point installs a deferred recover for its package's bail-out panic; " +
 		"(4) the explicit panic sites reachable from the entry points (VTA call graph) outside recover-protected parser packages are exactly the triaged set frozen in the checker: a new reachable explicit panic is reported. " +
-		"NOT decided: implicit run-time panics (index out of range, nil dereference, failed type assertion), termination and time bounds."
+		"(5) fixed-array-bound: inside a loop guarded by `i < BOUND`, every index into a fixed-size array stays within its length, counting the increments of i that precede the use; (6) value-cycle-detection: the type checker resolves array elements and struct fields (held by value) with the direct resolver that takes part in cycle detection, so that by-value recursive types are rejected instead of sending later passes into unbounded recursion. " +
+		"NOT decided: other implicit run-time panics (slices, nil dereference, failed type assertion), termination and time bounds in general."
 	c.Trusted = []string{"go/packages, go/types, go/ssa, callgraph/vta (x/tools v0.29.0)", "frozen triage table of reachable explicit panics (c08_triage.go)"}
+	c08Extra(c)
 	p := c.Load(LoadOpt{}, "./api", "./internal/parser/...", "./internal/wat/parser", "./internal/native/parser", "./internal/format", "./internal/xlang", "./internal/loader")
 	const rDisp, rExit, rRec, rPanic = "dispatch-totality", "no-process-exit", "recover-boundary", "no-new-escaping-panic"
 
